@@ -73,15 +73,68 @@ def _call(job):
                    detail=traceback.format_exc()[-1500:])]
 
 
+JOB_TIMEOUT = float(os.environ.get('VERIF_JOB_TIMEOUT', '2400'))      # wall-clock limit of one job: a prover that does not come back is 'undecided', never a hang
+
+
+def _child(job, conn):
+    try:
+        os.setsid()                 # own process group: external solvers started by the job die with it
+    except Exception:
+        pass
+    try:
+        conn.send(_call(job))
+    except Exception:
+        try:
+            conn.send([Ob('job:%s' % getattr(job[0], '__name__', 'f'), '-', 'machinery exception', '-', '-', UNDECIDED, detail=traceback.format_exc()[-1500:])])
+        except Exception:
+            pass
+    finally:
+        conn.close()
+
+
 def pmap(jobs, nproc=None):
-    """jobs: list of (function, args); every function returns a list of Ob. Runs in forked processes."""
+    """jobs: list of (function, args); every function returns a list of Ob. Each job runs in its own forked process with a wall-clock limit."""
     nproc = min(nproc or NCPU, max(1, len(jobs)))
-    if nproc == 1 or os.environ.get('VERIF_SERIAL'):
+    if os.environ.get('VERIF_SERIAL'):
         res = [_call(j) for j in jobs]
     else:
         ctx = multiprocessing.get_context('fork')
-        with ctx.Pool(nproc) as pool:
-            res = pool.map(_call, jobs, chunksize=1)
+        pending = list(enumerate(jobs))
+        running, results = {}, {}
+        while pending or running:
+            while pending and len(running) < nproc:
+                idx, job = pending.pop(0)
+                rd, wr = ctx.Pipe(duplex=False)
+                pr = ctx.Process(target=_child, args=(job, wr))
+                pr.start()
+                wr.close()
+                running[idx] = (pr, rd, time.time(), job)
+            done = []
+            for idx, (pr, rd, t0, job) in running.items():
+                name = 'job:%s%r' % (getattr(job[0], '__name__', 'f'), tuple(str(a)[:40] for a in job[1]))
+                if rd.poll():
+                    try:
+                        results[idx] = rd.recv()
+                    except EOFError:
+                        results[idx] = [Ob(name, '-', 'machinery exception', '-', '-', UNDECIDED, detail='worker process ended without a result')]
+                    pr.join(5)
+                    done.append(idx)
+                elif not pr.is_alive():
+                    results[idx] = [Ob(name, '-', 'machinery exception', '-', '-', UNDECIDED, detail='worker process died (exit code %s)' % pr.exitcode)]
+                    done.append(idx)
+                elif time.time() - t0 > JOB_TIMEOUT:
+                    try:
+                        os.killpg(pr.pid, 9)
+                    except Exception:
+                        pr.kill()
+                    pr.join(5)
+                    results[idx] = [Ob(name, '-', 'job exceeded its wall-clock limit', '-', '-', UNDECIDED, detail='no answer within %.0f s (VERIF_JOB_TIMEOUT)' % JOB_TIMEOUT)]
+                    done.append(idx)
+            for idx in done:
+                running.pop(idx)[1].close()
+            if not done:
+                time.sleep(0.05)
+        res = [results[i] for i in range(len(jobs))]
     out = []
     for r in res:
         out.extend(r)
